@@ -1222,6 +1222,7 @@ pub fn main_c20(tier_name: &str, seed: u64) -> i32 {
     extra.insert("simulated_time".into(), json!("none: asca reads no clock; the only wall-clock verdict is 'a config that must be rejected exits' with a 20 s bound (normal: 3 ms)"));
     extra.insert("event_log_digest".into(), json!(format!("{:016x}", st.log)));
     extra.insert("real_vs_stub".into(), report::real_vs_stub());
+    extra.insert("known_findings_reproduced".into(), json!(violations.iter().filter(|v| known.matches(v).is_some()).map(|v| format!("{}:{}", v.clause, v.signature)).collect::<Vec<_>>()));
     Evidence {
         property: "C20".into(),
         tier: tr.name.into(),
@@ -1239,7 +1240,7 @@ pub fn main_c20(tier_name: &str, seed: u64) -> i32 {
             "output file names are not part of the property: written files are identified by snapshot difference and, with -i, by their stage-number prefix".into(),
         ],
         wall_s: wall,
-        violations: violations.len() as u64,
+        violations: violations.iter().filter(|v| known.matches(v).is_none()).count() as u64,
     }
     .write();
     println!("c20: {} histories, {} invocations ({} judged), {} ops, faults {:?}, digest {:016x}, {:.1}s", total, st.invocations, st.judged, st.ops, st.faults, st.log, wall);
